@@ -125,6 +125,13 @@ fn rules() -> Vec<Rule> {
         rule!("type.command-number", "shout(command(5))", mismatch, Always),
         rule!("type.declared-variable", "make zz_s get \"s\"\nshout(zz_s times 2)", mismatch, Always),
         rule!("type.declared-variable-2", "make zz_n get 1\nshout(zz_n and true)", mismatch, Always),
+        rule!("type.variable-named-like-a-parameter", "make zz_s get \"s\"\ndo zz_fp(zz_s) start\nend\nshout(zz_s times 2)", mismatch, Always),
+        rule!("type.variable-named-like-a-parameter-before", "do zz_fq(zz_t) start\nend\nmake zz_t get \"s\"\nshout(zz_t minus 1)", mismatch, Always),
+        rule!("type.variable-named-like-a-callee-local", "make zz_n get 1\ndo zz_fl() start\nmake zz_n get \"x\"\nend\nshout(zz_n and true)", mismatch, Always),
+        rule!("type.variable-named-like-a-parameter-in-nested-block", "make zz_u get \"s\"\ndo zz_fr(zz_u) start\nend\nstart\nshout(not zz_u)\nend", mismatch, Always),
+        rule!("type.condition-named-like-a-parameter", "make zz_c get 5\ndo zz_fc(zz_c) start\nend\nif to say (zz_c) start\nend", mismatch, Always),
+        rule!("type.index-named-like-a-parameter", "make zz_i get \"k\"\ndo zz_fi(zz_i) start\nend\nshout([1][zz_i])", mismatch, Always),
+        rule!("method.unknown-named-like-a-parameter", "make zz_m get \"s\"\ndo zz_fm(zz_m) start\nend\nshout(zz_m.abs())", undeclared, Always),
         rule!("type.in-argument", "shout(to_string(1 minus \"s\"))", mismatch, Always),
         rule!("type.in-array", "shout([1, true minus 1])", mismatch, Always),
         rule!("method.unknown-on-string", "shout(\"s\".nosuch())", undeclared, Always),
@@ -143,6 +150,9 @@ fn rules() -> Vec<Rule> {
         rule!("control.unary-on-parameter", "do zz_ng(x, k) start\nif to say (true and not k) start\nreturn 2 times minus x\nend\nreturn 0\nend\nshout(zz_ng(1, false))", none, Never),
         rule!("control.method-on-dynamic-sum", "do zz_ln(p) start\nreturn (p add 1).len()\nend\nshout(zz_ln(\"s\"))", none, Never),
         rule!("control.local-after-wide-nested-function", "do zz_wo() start\nmake zz_a get 1\ndo zz_wi() start\nmake zz_v0 get 0\nmake zz_v1 get 1\nmake zz_v2 get 2\nmake zz_v3 get 3\nmake zz_v4 get 4\nmake zz_v5 get 5\nmake zz_v6 get 6\nmake zz_v7 get 7\nmake zz_v8 get 8\nmake zz_v9 get 9\nmake zz_v10 get 10\nmake zz_v11 get 11\nmake zz_v12 get 12\nmake zz_v13 get 13\nmake zz_v14 get 14\nmake zz_v15 get 15\nmake zz_v16 get 16\nmake zz_v17 get 17\nmake zz_v18 get 18\nmake zz_v19 get 19\nmake zz_v20 get 20\nmake zz_v21 get 21\nmake zz_v22 get 22\nmake zz_v23 get 23\nmake zz_v24 get 24\nmake zz_v25 get 25\nmake zz_v26 get 26\nmake zz_v27 get 27\nmake zz_v28 get 28\nmake zz_v29 get 29\nmake zz_v30 get 30\nmake zz_v31 get 31\nmake zz_v32 get 32\nmake zz_v33 get 33\nmake zz_v34 get 34\nmake zz_v35 get 35\nmake zz_v36 get 36\nmake zz_v37 get 37\nmake zz_v38 get 38\nmake zz_v39 get 39\nmake zz_v40 get 40\nmake zz_v41 get 41\nmake zz_v42 get 42\nmake zz_v43 get 43\nmake zz_v44 get 44\nmake zz_v45 get 45\nmake zz_v46 get 46\nmake zz_v47 get 47\nmake zz_v48 get 48\nmake zz_v49 get 49\nmake zz_v50 get 50\nmake zz_v51 get 51\nmake zz_v52 get 52\nmake zz_v53 get 53\nmake zz_v54 get 54\nmake zz_v55 get 55\nmake zz_v56 get 56\nmake zz_v57 get 57\nmake zz_v58 get 58\nmake zz_v59 get 59\nmake zz_v60 get 60\nmake zz_v61 get 61\nmake zz_v62 get 62\nmake zz_v63 get 63\nmake zz_v64 get 64\nmake zz_v65 get 65\nmake zz_v66 get 66\nmake zz_v67 get 67\nmake zz_v68 get 68\nmake zz_v69 get 69\nreturn zz_v0\nend\nmake zz_b get 2\nshout(zz_a add zz_b add zz_wi())\nend\nzz_wo()", none, Never),
+        rule!("control.redeclare-with-dynamic-initialiser", "do zz_first(zz_l) start\nreturn zz_l[0]\nend\nmake zz_rd get \"n/a\"\nshout(zz_rd)\nmake zz_rd get zz_first([21, 34])\nshout(zz_rd minus 1)", none, Never),
+        rule!("control.redeclare-with-other-type", "make zz_re get \"s\"\nshout(zz_re.len())\nmake zz_re get 5\nshout(zz_re times 2)", none, Never),
+        rule!("control.redeclare-from-parameter", "do zz_rp(zz_pv) start\nmake zz_x get \"a\"\nshout(zz_x)\nmake zz_x get zz_pv\nreturn zz_x times 2\nend\nshout(zz_rp(4))", none, Never),
         rule!("control.nested-function-call", "do zz_n1() start\ndo zz_n2() start\nend\nzz_n2()\nend\nzz_n1()", none, Never),
     ]
 }
